@@ -21,10 +21,11 @@ SPECS = {
     'C05': [(CHC, [C + '_read_halo_info', C + '_load_halo_field'])],      # the reader that feeds the regenerated loaders
     'C06': [(TSC, ['_tsc_scatter', '_rightwrap', '_wrap_inplace', 'tsc_parallel', '_tsc_parallel', 'partition_parallel']),
             ('abacusnbody/analysis/cic.py', ['cic_serial', 'rightwrap']), (PS, ['get_field'])],
-    'C07': [(TSC, ['tsc_parallel', '_tsc_parallel', 'partition_parallel'])],
+    'C07': [(TSC, ['tsc_parallel', '_tsc_parallel', 'partition_parallel']),
+            (PS, ['get_field', 'get_field_fft', 'get_interlaced_field_fft'])],          # the callers that choose wrap / offset / nthread
     'C08': [(PS, ['calc_pk_from_deltak', 'get_raw_power', 'project_3d_to_poles', 'pk_to_xi'])],    # the public callers of the binning kernels
     'C09': [(GH, ['gen_gals', 'wrap', 'gen_gal_cat'])],
-    'C10': [(GH, ['fast_concatenate', 'gen_gals']), ('abacusnbody/hod/abacus_hod.py', ['_searchsorted_parallel'])],
+    'C10': [(GH, ['fast_concatenate', 'gen_gals', 'gen_gal_cat']), ('abacusnbody/hod/abacus_hod.py', ['_searchsorted_parallel', 'AbacusHOD.run_hod'])],
     'C12': [('abacusnbody/hod/abacus_hod.py', ['_searchsorted_parallel'])],
     'C13': [(PS, ['calc_power', 'get_field', 'get_field_fft', 'get_interlaced_field_fft', 'shift_field_fft',
                   'get_W_compensated', 'normalize_field', 'get_raw_power', 'calc_pk_from_deltak', '_normalize',
